@@ -17,7 +17,7 @@ Definition reply_chunks (k : cfg) (s0 : str) : res (list str) :=
   let s := reply_text k s0 in
   if has_surrogate s then Raise UnicodeError
   else if (Z.of_N (blen s) <=? allowed_length k)%Z || negb (c_mores k) then Ok [s]
-  else wrap s (allowed_length k - Z.of_N gen.T12.MORE_RESERVE).
+  else wrap s (allowed_length k - Z.of_N (more_reserve k)).
 
 (* chunk number j of N is sent as one message; all but the last carry
    " (n more message[s])" in bold with n = number of chunks after it (+ base) *)
@@ -26,14 +26,14 @@ Fixpoint annot (k : cfg) (base : nat) (chunks : list str) : list str :=
   | [] => []
   | c :: rest =>
       let n := N.of_nat (base + length rest) in
-      makeReply k (if n =? 0 then c else c ++ suffix n n) :: annot k base rest
+      makeReply k (if n =? 0 then c else c ++ suffix k n n) :: annot k base rest
   end.
 
 (* ---------- build_msgs ---------- *)
 Lemma annot_snoc k base l c :
   annot k base (l ++ [c]) =
   annot k (S base) l ++
-  [makeReply k (if N.of_nat base =? 0 then c else c ++ suffix (N.of_nat base) (N.of_nat base))].
+  [makeReply k (if N.of_nat base =? 0 then c else c ++ suffix k (N.of_nat base) (N.of_nat base))].
 Proof.
   induction l as [|x l IH]; cbn [app annot length].
   - rewrite Nat.add_0_r. reflexivity.
@@ -91,7 +91,7 @@ Proof.
   destruct (has_surrogate s); [discriminate|].
   destruct ((Z.of_N (blen s) <=? allowed_length k)%Z || negb (c_mores k)).
   - injection H as <- <-. exists [s]. split; reflexivity.
-  - destruct (wrap s (allowed_length k - Z.of_N gen.T12.MORE_RESERVE)) as [chunks|e]; [|discriminate].
+  - destruct (wrap s (allowed_length k - Z.of_N (more_reserve k))) as [chunks|e]; [|discriminate].
     cbn [bind] in H. exists chunks. split; [reflexivity|].
     pose proof (build_rev k (rev chunks) []) as Hb. cbn [length N.of_nat rev app] in Hb.
     rewrite rev_involutive, app_nil_r in Hb.
